@@ -66,12 +66,6 @@ func (m *DBManager) GetUserDB(userID int64) (*sql.DB, error) {
 
 	dbPath := m.getUserDBPath(userID)
 
-	// Check if database file exists
-	exists := false
-	if _, err := os.Stat(dbPath); err == nil {
-		exists = true
-	}
-
 	// Open database
 	db, err := sql.Open("sqlite3", dbPath)
 	if err != nil {
@@ -84,12 +78,13 @@ func (m *DBManager) GetUserDB(userID int64) (*sql.DB, error) {
 		return nil, fmt.Errorf("failed to enable foreign keys: %v", err)
 	}
 
-	// Initialize schema if this is a new database
-	if !exists {
-		if err := m.initUserDB(db, userID); err != nil {
-			_ = db.Close()
-			return nil, fmt.Errorf("failed to initialize user database: %v", err)
-		}
+	// Initialize the schema and the default mailboxes. This also runs for an
+	// existing file: every statement is idempotent, and a process that died in
+	// the middle of the first initialization leaves a file that lacks tables
+	// or default mailboxes and would otherwise never be completed.
+	if err := m.initUserDB(db, userID); err != nil {
+		_ = db.Close()
+		return nil, fmt.Errorf("failed to initialize user database: %v", err)
 	}
 
 	// Cache the connection
@@ -119,12 +114,6 @@ func (m *DBManager) GetRoleMailboxDB(roleMailboxID int64) (*sql.DB, error) {
 
 	dbPath := m.getRoleMailboxDBPath(roleMailboxID)
 
-	// Check if database file exists
-	exists := false
-	if _, err := os.Stat(dbPath); err == nil {
-		exists = true
-	}
-
 	// Open database
 	db, err := sql.Open("sqlite3", dbPath)
 	if err != nil {
@@ -137,12 +126,11 @@ func (m *DBManager) GetRoleMailboxDB(roleMailboxID int64) (*sql.DB, error) {
 		return nil, fmt.Errorf("failed to enable foreign keys: %v", err)
 	}
 
-	// Initialize schema if this is a new database (use userID 0 for role mailbox)
-	if !exists {
-		if err := m.initUserDB(db, 0); err != nil {
-			_ = db.Close()
-			return nil, fmt.Errorf("failed to initialize role mailbox database: %v", err)
-		}
+	// Initialize the schema and the default mailboxes, also for an existing
+	// file (see GetUserDB); use userID 0 for role mailbox
+	if err := m.initUserDB(db, 0); err != nil {
+		_ = db.Close()
+		return nil, fmt.Errorf("failed to initialize role mailbox database: %v", err)
 	}
 
 	// Cache the connection
